@@ -220,6 +220,25 @@ CLAIMED = {
              "conversion. Queries within 1e-3 (barycentric / relative) of an edge, vertex, the origin or the "
              "surface are out of scope as the property says.",
         technique="Lean 4 proof (exhaustive rational model proved sound/complete/optimal) + model-as-oracle differential run"),
+    "C14": dict(
+        category="proof", design_ref="DESIGN.md 5 C14",
+        text="Lean 4 theorems over exact rationals: the shoelace form of a vertex loop is the sum over its directed "
+             "segments, hence invariant under any permutation of the segments (start anywhere, entities in any "
+             "order); reversing a polyline negates the swept area and keeps every segment length; chaining "
+             "pieces adds up their areas, with the opposite sign for entities the walk traverses backwards; an "
+             "affine map multiplies the signed area of a closed loop by its determinant (s^2 for similarities, "
+             "sign change for mirrors) and a similarity scales every squared segment length by s^2; the "
+             "three-point arc centre (barycentric form of arc_center) is equidistant from the control points "
+             "and undefined exactly for collinear ones; a region's area does not depend on the stored "
+             "direction of shell and holes. Tied to the code by a differential run on nested / disjoint "
+             "families of polygons, circles and slots split into polylines and arcs in every order and "
+             "direction: counts, nesting, area, length against exact values; similarity transforms after "
+             "reading derived values; DXF / SVG / dict round trips; the library's discretised loops, entity "
+             "walk and arc centres are recomputed by the Lean model on exact rationals.",
+        note="Trusted: Lean kernel (+propext/Classical.choice/Quot.sound); networkx cycle search, shapely "
+             "containment and the DXF / SVG text layers are exercised not modelled (partial). Two defects "
+             "repaired (Arc.length doubled; dict form could not be re-imported, see C08).",
+        technique="Lean 4 proof (shoelace / affine / arc-centre identities over Q) + differential correspondence"),
     "C16": dict(
         category="proof", design_ref="DESIGN.md 5 C16",
         text="Lean 4 theorems over exact rationals: soundness of executable checkers that are run on the real "
